@@ -3,7 +3,8 @@
 Space: ALL sequences of length <= 3 (quick) / <= 4 (thorough) over a 9-message
 alphabet (empty, scalar, string, nested, packed, with-unknown-for-the-older-reader,
 second type, long), reader schema in {same, older}, and for every stream EVERY cut
-point 0..len.
+point 0..len; plus, on the uncut stream, every schedule of at most two short read()
+answers (deviation-bounded environment).
 """
 from __future__ import annotations
 
@@ -193,6 +194,39 @@ def eval_sequence(seq: Tuple[int, ...], reader: str, tally: Tally) -> List[Viola
                 bad("consumed", f"cut={cut}: after load {k} stream at {s.tell()}, boundary is {bounds[k]}",
                     {"cut": cut, "k": k, "involved": [labels[j] for j in range(k + 1)][-2:]})
                 break
+    # environment answers: a stream may legally return FEWER bytes than asked for without being
+    # at its end (raw files, sockets, pipes: io.RawIOBase.read).  Every read call asking for >= 2
+    # bytes is a choice point; all schedules with at most 2 short answers, each answer either
+    # "1 byte" or "all but one byte", are explored; the whole data is there, so every message must
+    # be read back.
+    probe = _ShortReader(full, {}, "one")
+    for k, i in enumerate(seq):
+        cls, mdef = reader_cls(bp, ALPHABET[i][0], reader)
+        cls().load(probe, betterproto.SIZE_DELIMITED)
+    points = probe.points
+    schedules = [()] + [(p,) for p in points] + list(itertools.combinations(points, 2))
+    for sched in schedules:
+        for mode in ("one", "allbutone"):
+            if not sched and mode != "one":
+                continue
+            tally.inc("short_read_schedules")
+            s = _ShortReader(full, set(sched), mode)
+            for k, i in enumerate(seq):
+                tname, aval, _ = ALPHABET[i]
+                cls, mdef = reader_cls(bp, tname, reader)
+                try:
+                    got = cls().load(s, betterproto.SIZE_DELIMITED)
+                    tally.inc("edges")
+                    ok = bytes(got) == bodies[k] and s.tell() == bounds[k]
+                    detail = f"returned {got!r} at offset {s.tell()}"
+                except Exception as e:
+                    ok = False
+                    detail = f"raised {type(e).__name__}: {e}"
+                if not ok:
+                    bad("short-read", f"stream answering read calls {list(sched)} short ({mode}) although all data is "
+                        f"available: load {k} {detail}; written {msgs[k]!r}",
+                        {"short": list(sched), "mode": mode, "k": k, "involved": [labels[k]]})
+                    break
     # dedupe by signature within this sequence
     seen = set()
     uniq = []
@@ -202,6 +236,34 @@ def eval_sequence(seq: Tuple[int, ...], reader: str, tally: Tally) -> List[Viola
             seen.add(key)
             uniq.append(v)
     return uniq
+
+
+class _ShortReader:
+    """A readable stream over ``data`` that answers the read calls numbered in ``short`` (counting
+    only calls that ask for >= 2 bytes and have >= 2 bytes left) with fewer bytes than asked."""
+
+    def __init__(self, data: bytes, short, mode: str):
+        self.data, self.pos, self.short, self.mode = data, 0, short, mode
+        self.calls = 0
+        self.points: List[int] = []
+
+    def read(self, n: int = -1) -> bytes:
+        avail = len(self.data) - self.pos
+        if n is None or n < 0:
+            n = avail
+        n = min(n, avail)
+        if n >= 2:
+            idx = self.calls
+            self.calls += 1
+            self.points.append(idx)
+            if idx in self.short:
+                n = 1 if self.mode == "one" else n - 1
+        out = self.data[self.pos:self.pos + n]
+        self.pos += n
+        return out
+
+    def tell(self) -> int:
+        return self.pos
 
 
 def sequences(maxlen: int):
@@ -244,6 +306,7 @@ def run(ctx: Ctx) -> None:
              "point 0..len(stream) (evaluations = stream prefixes loaded)" % maxlen,
         streams=t.n.get("streams", 0),
         loads=t.n.get("edges", 0),
+        short_read_schedules=t.n.get("short_read_schedules", 0),
         exhaustive=True,
         samples=t.samples,
     )
